@@ -400,3 +400,129 @@ Fixpoint mism_from (i : nat) (cs : list case) : list (nat * nat) :=
 Definition mismatches (cs : list case) := mism_from 0 cs.
 
 End Vec.
+
+(* ================================================================== statement level: ORDER BY / LIMIT / GROUP BY (Model/CachePlans.v) *)
+(* Module Stmt extends Module Vec's cases by one kind; the harness' case files import it last
+   (`Import C05.Vec. Import C05.Stmt.`), so that [case], [check_case], [mismatches] and the
+   constructor names COld / CSeq / CDrain / CVec are the ones below.
+
+   CStmt  one SELECT statement with named fields through Optimizer.BuildPlan -- ProjectionPlan or
+          AggregatePlan, [+ FinalOrderPlan] [+ FinalLimitPlan] -- on one store at one batch size:
+          the trees of the built plan (field names, fields, the scan's filter, GROUP BY
+          expressions, non-aggregate fields, aggregate arguments, AggrAll / Fields, field types;
+          ORDER BY and LIMIT as parsed; the node kinds of the plan), the slots the scan reads,
+          and the rows / the error of FOUR drains: Next until nil and Batch until empty, each with
+          the field cache on and off.
+          Twin: Model/CachePlans.stmt_shape_row_c / stmt_shape_batch_c with the cache switch.
+   Codes: 1 = the twin and the implementation differ (shape of the plan, rows or error of one of
+          the four runs; with ORDER BY sequences are compared modulo ties as in Corr/C03Stmt.v);
+          5 = inside the premises of cache_invisible_aggregate_row / _batch (cq_ok, names_ok,
+          pairwise different keys) the implementation's result with the field cache on differs
+          from its result with the cache off (by content, list columns included);
+          99 = outside the twins. *)
+From Coq Require Import Floats.
+From KV Require Import Model.LimitLazy Model.SelectPlans Model.CachePlans Corr.C03Stmt.
+From KV Require Model.Order Model.Aggregate Spec.Group.
+
+Module Stmt.
+Local Open Scope nat_scope.
+Local Open Scope list_scope.
+
+Definition vec_case := Vec.case.
+
+Inductive case :=
+  | CV (c : vec_case)
+  | CStmt (B : nat) (names : list string) (fields : list expr) (wh : expr)
+          (group keys args : list expr) (aggr : option (bool * list (Group.field float)))
+          (types : list Order.type) (order : option (list Order.order_field)) (limit : option (nat * nat))
+          (sh : shape) (slots : list (option (bytes * bytes)))
+          (row_on row_off bat_on bat_off : qobs).
+
+(* the cases of Module Vec under their names *)
+Definition COld (c : Vec.old_case) : case := CV (Vec.COld c).
+Definition CSeq (names : list string) (fields : list expr) (wh : expr)
+           (chunks : list (list (bytes * bytes))) (obs_on obs_off : list Vec.vobs) : case :=
+  CV (Vec.CSeq names fields wh chunks obs_on obs_off).
+Definition CDrain (names : list string) (fields : list expr) (wh : expr) (B : nat)
+           (slots : list (option (bytes * bytes))) (obs_on obs_off : Vec.dobs) : case :=
+  CV (Vec.CDrain names fields wh B slots obs_on obs_off).
+Definition CVec (names : list string) (fields : list expr) (wh : expr) (B : nat)
+           (slots : list (option (bytes * bytes)))
+           (seqs : list (list (list (bytes * bytes)) * list Vec.vobs * list Vec.vobs))
+           (obs_on obs_off : Vec.dobs) : case :=
+  CV (Vec.CVec names fields wh B slots seqs obs_on obs_off).
+
+(* a list-valued (or nil) column as the twin renders it (Model/SelectPlans.conv_val) *)
+Definition VL (c : canon) : Order.value := Order.VOther (canon_text c).
+
+(* ---- equality of observations by content: string and []byte identified, list columns compared *)
+Definition sval_eqb (a b : Order.value) : bool :=
+  match a, b with
+  | Order.VOther x, Order.VOther y => String.eqb x y
+  | Order.VOther _, _ | _, Order.VOther _ => false
+  | _, _ => qval_eqb a b
+  end.
+Definition srows_eqb (a b : list Order.row) : bool := list_eqb (list_eqb sval_eqb) a b.
+
+Definition sobs_eqb (a b : qobs) : bool :=
+  match a, b with
+  | QRows x, QRows y => srows_eqb x y
+  | QErr c p, QErr c' p' => Nat.eqb c c' && (Nat.eqb c 3 || Z.eqb p p')
+  | QPanic, QPanic => true
+  | _, _ => false
+  end.
+
+(* the twin's result against one observed run: 0 agree, 1 differ, 99 outside the twin *)
+Definition cmp_sobs (c : qcase) (sh : shape) (r : res (list Order.row)) (o : qobs) : nat :=
+  match r with
+  | Ok rows =>
+      match o with
+      | QRows obs =>
+          match shape_orders sh with
+          | None => if srows_eqb obs rows then 0 else 1
+          | Some _ => if seq_agree c sh obs rows then 0 else 1
+          end
+      | _ => 1
+      end
+  | _ => cmp_qobs c sh r o
+  end.
+
+Definition check_stmt (B : nat) (names : list string) (fields : list expr) (wh : expr)
+    (group keys args : list expr) (aggr : option (bool * list (Group.field float)))
+    (types : list Order.type) (order : option (list Order.order_field)) (limit : option (nat * nat))
+    (osh : shape) (slots : list (option (bytes * bytes))) (row_on row_off bat_on bat_off : qobs) : nat :=
+  let sel := Cache.Stmt names fields wh in
+  let q := CQ prim_fops sel group keys args types aggr order limit in
+  let sh := cq_shape prim_fops q in
+  let qc := QCase B wh (Some fields) group keys args aggr names types order limit osh (somes slots) row_on bat_on in
+  let premise := cq_ok prim_fops q && Vec.names_okb Vec.c05v_keyfix sel && Vec.nodupb (map fst (somes slots)) in
+  let differ := negb (sobs_eqb row_on row_off) || negb (sobs_eqb bat_on bat_off) in
+  if negb (shape_eqb sh osh) then 1
+  else if premise && differ then 5
+  else if negb (in_model qc sh (map (@Some kvpair) (somes slots))) then 99
+  else
+    let rr on := stmt_shape_row_c prim_fops re_oom ag64 q_pint q_pfloat on q sh (somes slots) in
+    let rb on := stmt_shape_batch_c prim_fops re_oom Vec.c05v_keyfix ag64 q_pint q_pfloat on B q sh slots in
+    let codes := [cmp_sobs qc sh (rr true) row_on; cmp_sobs qc sh (rr false) row_off;
+                  cmp_sobs qc sh (rb true) bat_on; cmp_sobs qc sh (rb false) bat_off] in
+    if existsb (Nat.eqb 99) codes then 99
+    else if forallb (Nat.eqb 0) codes then 0 else 1.
+
+Definition check_case (c : case) : nat :=
+  match c with
+  | CV c' => Vec.check_case c'
+  | CStmt B names fields wh group keys args aggr types order limit sh slots ron roff bon boff =>
+      check_stmt B names fields wh group keys args aggr types order limit sh slots ron roff bon boff
+  end.
+
+Fixpoint mism_from (i : nat) (cs : list case) : list (nat * nat) :=
+  match cs with
+  | [] => []
+  | c :: cs' => match check_case c with
+                | 0 => mism_from (S i) cs'
+                | k => (i, k) :: mism_from (S i) cs'
+                end
+  end.
+Definition mismatches (cs : list case) := mism_from 0 cs.
+
+End Stmt.
